@@ -643,6 +643,7 @@ func builtinModels() map[string]modelFn {
 	}
 
 	registerIntrinsics(m)
+	registerHavoc(m)
 	return m
 }
 
